@@ -478,6 +478,10 @@ func runC05TCP(c C05E2E, info *kit.Info) *kit.Finding {
 	if err != nil {
 		sinks.close()
 		front.Close(time.Second)
+		if kit.EnvNetError(err) {
+			info.Skipped = "host out of ports: " + err.Error()
+			return nil
+		}
 		return kit.Violation("policy:dial-refused", "cannot connect to proxy: %v", err)
 	}
 	defer func() {
